@@ -247,3 +247,11 @@ def replay_witness(f, prop, driver=None):
         iss = [i for i in r['issues'][w['expect']['prop']] if i['what'] == w['expect']['what']]
         return bool(iss), dict(issues=len(iss), first=iss[0] if iss else None)
     return False, dict(error='unknown witness type')
+
+
+def sig_K16(prop, cfg, issue):
+    return (prop == 'C15' and cfg.get('kind') == 'IHS' and (cfg.get('hyper') or {}).get('bw_min') == 0
+            and issue.get('what') == 'out-of-range' and issue.get('name') == 'bw' and str(issue.get('value')) == 'nan')
+
+
+SIGS['K16'] = sig_K16
